@@ -62,6 +62,8 @@ class Harness:
     def __init__(self, ctx, it, contract, case):
         self.ctx, self.it, self.contract, self.case = ctx, it, contract, case
         self.old = {}
+        import os
+        self.prop = os.environ.get("PYVC_PROP", contract.prop)
 
     # proofs ---------------------------------------------------------------------------
     def prove(self, name, goal, kind="post"):
@@ -171,6 +173,7 @@ def verify(contract_cls, repo=None, timeout_ms=None):
             it.callee_contracts = dict(c.callees)
             cx.inputs = inputs
             cx.old = {"heap": dict(ctx.heap)}
+            cx.initial_obsolete = self_obj.attrs.get("_obsolete") if isinstance(self_obj, Instance) and "attrs" in ctx.store.get(self_obj.id, {}) else None
             try:
                 if self_obj is not None:
                     if isinstance(self_obj, ClassObj):
